@@ -11,6 +11,7 @@ CONSTANTS AMOUNTS,     \* delegation / undelegation amounts
           MAXREC,      \* undelegation requests per behaviour
           NOOPBUDGET,  \* events allowed per behaviour that fail or change nothing (>= MAXOPS: unlimited)
           VSTAKERS,    \* stakers that may undelegate ("s1", "v")
+          PATHS,       \* entry paths of an undelegation: "keeper" (keeper / cosmos message), "pc" (delegation precompile)
           NONEMPTY,    \* TRUE: generation never empties the validator set (the engine halts there)
           BLOCKW       \* weight of block boundaries among the successors (simulation bias; 1 for exhaustive runs)
 
@@ -67,8 +68,8 @@ Next ==
   \/ \E o \in OPS, k \in KEYS : Do("SetKey", [o |-> o, k |-> k])
   \/ \E o \in OPS : Do("OptOut", [o |-> o])
   \/ \E o \in OPS, x \in AMOUNTS : Do("Delegate", [o |-> o, x |-> x])
-  \/ \E s \in VSTAKERS, o \in OPS, x \in AMOUNTS :
-        st.nrec < MAXREC /\ Do("Undelegate", [s |-> s, o |-> o, x |-> x, id |-> st.nrec + 1])
+  \/ \E s \in VSTAKERS, o \in OPS, x \in AMOUNTS, pa \in PATHS :
+        st.nrec < MAXREC /\ Do("Undelegate", [s |-> s, o |-> o, x |-> x, id |-> st.nrec + 1, path |-> pa])
   \/ \E k \in KEYS : Do("Jail", [k |-> k])
   \/ \E k \in KEYS : Do("Unjail", [k |-> k])
   \/ \E mv \in MAXVS, n \in NS : ((mv # st.maxV) # (n # st.N)) /\ Do("UpdateParams", [maxVals |-> mv, n |-> n])
